@@ -322,7 +322,15 @@ def execute(mat, ctx):
             P = parts[rng.randrange(len(parts))]
             ename = rng.choice([e for e in gen.enzyme_names() if gen.enzyme(e) is not P.cutter])
 
+            lower_twin = j % 3 == 2 and any(c not in "ACGT" for c in "".join(P.signature))
+            if lower_twin:
+                ctx.count("c06_lower_case_signature_twins")
+
             def mk():
+                if lower_twin:
+                    # the parent's signature re-typed in lower case: for the library a lower-case ambiguity letter is a plain
+                    # letter, so this is another (much narrower) type than its parent
+                    return type(str("DynLow%d" % j), (P,), {"signature": tuple(x.lower() for x in P.signature)})
                 return type(str("DynCut%d" % j), (P,), {"cutter": gen.enzyme(ename)})
 
             def dyn_texts():
@@ -330,7 +338,7 @@ def execute(mat, ctx):
                 from moclo.core.vectors import AbstractVector
                 from ..util import rc as _rc
                 from .. import refmodel
-                site, nn, kk = refmodel.geometry(gen.enzyme(ename))
+                site, nn, kk = refmodel.geometry(P.cutter if lower_twin else gen.enzyme(ename))
                 up, down = P.signature
                 r2 = gen.rng_for(seed, PROP, "dyncutprobe", j)
                 out = []
